@@ -428,6 +428,22 @@ def rule_f(ctx):
                               "%s on a sequence of %s: a declaration could be discarded or reordered before the cascade "
                               "compares importance, origin and specificity" % (callee_method(t), tys[:80]))
     ctx.check(control >= 1, "C19-F", "positive-control:selector-reverse-found", "", "", "the query must see components.reverse() in the css parser")
+    # the document's style sheets are concatenated in document order (later sheets win ties): the extraction code only
+    # appends — nothing swaps, inserts in front, reverses or reorders the collected sheets
+    nde = 0
+    for b in F.bodies.values():
+        root = b.root if b.kind == "Closure" else b.id
+        if not str(root).startswith("css::dom_extract::"):
+            continue
+        nde += 1
+        for bb, t in b.calls(lambda cd, t: callee_method(t) in SEQ_OPS or callee_method(t) in ("swap", "replace", "swap_remove") or
+                             ends(cd, "std::mem::swap", "std::mem::replace")):
+            c = t["callee"]
+            tys = " ".join([c.get("self_ty") or ""] + list(c.get("targs") or []))
+            if "String" in tys or "Vec<" in tys:
+                ctx.violation("C19-F", "dom_extract:%s:%s" % (fn_key(b), callee_method(t)), t["span"], b.id,
+                              "%s on the collected style sheets (%s): sheets must stay in document order" % (callee_method(t), tys[:60]))
+    ctx.floor("C19-F", "bodies of the style extraction", nde, 3)
     # styles_from_properties returns the vector it pushed every declaration's style onto
     sfp = F.one("css::styles_from_properties")
     pushes = sfp.calls(lambda cd, t: callee_method(t) == "push" and "StyleDecl" in " ".join(t["callee"].get("targs") or []))
